@@ -195,8 +195,11 @@ package keeper
 //@   invariant state(ctx) == old(state(ctx)) && -1 <= phi1 && phi1 < len(stakers.Stakers)
 //@   invariant[C02.asfo.once] forall(i, 0, phi1 + 1, stakers.Stakers[i] != stakerID)
 
+// C02 (the delegators listed for an operator and asset are those that hold shares): taking one staker off the list takes
+// ONE entry off - whoever is listed after it stays listed.
 //@ func (*Keeper).DeleteStakerForOperator
 //@   modifies get(ctx, "delegation", slKey(operator, assetID))
+//@   before[C02.dsfo.one] prefix.Store).Set requires len(stakers.Stakers) + 1 >= len(unm["x/delegation/types.StakerList"](res_Get_0).Stakers)
 //@   ensures[C09.dsfo.atomic] err != nil ==> state(ctx) == old(state(ctx))
 //@   ensures[C09.dsfo.err]    (err != nil) <==> (old(get(ctx, "delegation", slKey(operator, assetID))) == nil)
 //@ loop #1
@@ -539,7 +542,7 @@ package keeper
 //@   requires err == nil
 //@   modifies state(ctx)
 //@   ensures[C02.dofs.all]   err == nil ==> !r0
-//@   ensures[C02.dofs.other] keys.OperatorAddr != associatedOperator ==> state(ctx) == old(state(ctx)) && err == nil
+//@   ensures[C02.dofs.other,C09.dofs.other] keys.OperatorAddr != associatedOperator ==> state(ctx) == old(state(ctx)) && err == nil
 //@   ensures[C02.dofs.share] err == nil && keys.OperatorAddr == associatedOperator ==>
 //@        opSelf(ctx, accstr(oldOperatorAccAddr), keys.AssetID) == old(opSelf(ctx, accstr(oldOperatorAccAddr), keys.AssetID)) - val(amounts.UndelegatableShare)
 
